@@ -1,6 +1,6 @@
 (* Protocol entry point of the extracted model: one command + hex arguments in, one JSON line out. *)
 From Coq Require Import String Ascii List ZArith NArith Bool.
-From SDP Require Import Base PyStr Regex Json LR RealTables Lexer Actions Parse Engine Seq.
+From SDP Require Import Base PyStr Regex Json Codec LR RealTables Lexer Actions Parse Engine Seq Output.
 Import ListNotations.
 Open Scope string_scope.
 
@@ -37,6 +37,16 @@ Definition dispatch (cmd : string) (args : list string) : string :=
   | "parse", [norm; silent; s] =>
       json_of_res (fun o => match o with Some v => JObj [("value", json_of_pyval v)] | None => JObj [("none", JBool true)] end)
                   (parse_statement (String.eqb norm "1") (String.eqb silent "1") s)
+  | "format", mode :: group :: rest =>
+      match decode_all rest with
+      | Some (PList po) => json_of_res json_of_pyval (Output.format mode (String.eqb group "1") po)
+      | _ => JObj [("unsupported", JStr "bad parser_output encoding")]
+      end
+  | "group", rest =>
+      match decode_all rest with
+      | Some (PList flat) => json_of_res json_of_pyval (Output.group_by_type_result flat)
+      | _ => JObj [("unsupported", JStr "bad flat list encoding")]
+      end
   | "seq_spec", norm :: rest =>
       match seq_of_args rest with
       | None => JObj [("unsupported", JStr "bad seq args")]
